@@ -84,9 +84,34 @@ def body(case):
     out.label(f"rules:{len(schema.rules)}", "cast-fires" if fired else "no-cast-fires")
     out.sample = show(schema, 500)
     def refused(sobj):
+        # (rule paths, and the data paths given as condition arguments - at the top level of an argument or one level down)
+        def paths_in(x, dpt=0):
+            if type(x).__name__ == "DataPath":
+                yield x
+            elif dpt == 0 and isinstance(x, (list, tuple)):
+                for i in x:
+                    yield from paths_in(i, 1)
+            elif dpt == 0 and isinstance(x, dict):
+                for i in x.values():
+                    yield from paths_in(i, 1)
+
+        def leaves_of(cnd):
+            if hasattr(cnd, "children"):
+                for ch in cnd.children:
+                    yield from leaves_of(ch)
+            else:
+                yield cnd
+
         for r_ in sobj.rules:
             try:
                 r_.path.to_part_specs()
+                for lo in leaves_of(r_.condition):
+                    cal = getattr(lo, "callable", None)
+                    if cal is None:
+                        continue
+                    for a in list(cal.args) + list(cal.kwargs.values()):
+                        for po in paths_in(a):
+                            po.to_part_specs()
             except Exception:
                 return True
         return False
